@@ -612,7 +612,25 @@ typedef struct ahdr {
 	struct ahdr *prev, *next;
 	uint64_t     site;
 	uint64_t     seq;
-} ahdr; // 48 bytes
+	uint8_t      guard[16]; // poisoned (ASan) / canary: an underflow of the block lands here
+} ahdr; // 64 bytes
+
+#if defined(__SANITIZE_ADDRESS__)
+#define VF_ASAN 1
+#elif defined(__has_feature)
+#if __has_feature(address_sanitizer)
+#define VF_ASAN 1
+#endif
+#endif
+#ifdef VF_ASAN
+#include <sanitizer/asan_interface.h>
+#define GUARD_ARM(h) __asan_poison_memory_region((h)->guard, sizeof((h)->guard))
+#define GUARD_DISARM(h) __asan_unpoison_memory_region((h)->guard, sizeof((h)->guard))
+#else
+#define GUARD_ARM(h) memset((h)->guard, 0xC5, sizeof((h)->guard))
+#define GUARD_DISARM(h) ((void) 0)
+#endif
+#define A_MAX_REQUEST ((size_t) 1 << 40) // beyond this the request is refused like a real out-of-memory
 
 static pthread_mutex_t a_mtx  = PTHREAD_MUTEX_INITIALIZER;
 static ahdr            a_head = { 0, 0, &a_head, &a_head, 0, 0 };
@@ -710,6 +728,9 @@ a_alloc(size_t sz, bool zero)
 		atomic_store(&a_fail_fired, 1);
 		return NULL;
 	}
+	if (sz > A_MAX_REQUEST) {
+		return NULL; // (also keeps sizeof(ahdr) + sz from wrapping)
+	}
 	ahdr *h = malloc(sizeof(ahdr) + sz);
 	if (h == NULL) {
 		return NULL;
@@ -722,6 +743,7 @@ a_alloc(size_t sz, bool zero)
 	h->magic = AH_MAGIC;
 	h->size  = sz;
 	h->site  = site;
+	GUARD_ARM(h);
 	pthread_mutex_lock(&a_mtx);
 	h->seq        = (uint64_t) ++a_total;
 	h->next       = &a_head;
@@ -777,6 +799,15 @@ a_free(void *p, size_t sz)
 		    "block %p allocated with %zu bytes returned with size %zu", p,
 		    h->size, sz);
 	}
+	GUARD_DISARM(h);
+#ifndef VF_ASAN
+	for (size_t i = 0; i < sizeof(h->guard); i++) {
+		if (h->guard[i] != 0xC5) {
+			vf_violation("alloc/underflow", "block %p (%zu bytes): byte %zu before the block was overwritten", p, h->size, sizeof(h->guard) - i);
+			break;
+		}
+	}
+#endif
 	pthread_mutex_lock(&a_mtx);
 	h->prev->next = h->next;
 	h->next->prev = h->prev;
